@@ -445,7 +445,7 @@ func init() {
 		Explain: "Structural necessary conditions of AllPaths/Decode (DESIGN.md 5/C04): exact [from,to) clip and stored-level test dominating the only emit, early exit only on p >= to, the emitted path's layout, the search-value range and the level walk including tz = 0; Decode's wiring (same bitmapSize, full path range, every path tested at its PathToIndex bit, exact len(bm) guard, appended path = tested path).",
 		NotDec:  []string{"that the trailing-zero walk enumerates each stored node exactly once and in ascending order (arithmetic/combinatorial)", "PathToIndex itself (C03)"},
 		Trusted: []string{"go/ssa construction", "math/bits.TrailingZeros64"},
-		Quick:   []Config{cfgDefault}, Thorough: []Config{cfgDefault, cfg386},
+		Quick:   []Config{cfgDefault, cfg386}, Thorough: []Config{cfgDefault, cfg386},
 		Run: runC04,
 	})
 }
